@@ -277,6 +277,10 @@ func runTCPClient(phases []phase) error {
 			conn.Write(tagged(1, k, "debug", true, nil, 0).Bytes()) //nolint:errcheck
 		}
 		switch ph.kind {
+		case "eof-longlived":
+			time.Sleep(2 * c14Reconnect) // the connection lived longer than the reconnect delay
+			conn.Close()
+			causes = append(causes, "eof")
 		case "eof":
 			conn.Close()
 			causes = append(causes, "eof")
@@ -532,6 +536,18 @@ func runSerial(phases []phase) error {
 		}
 		ierr := fmt.Errorf("injected serial read error %d", pi)
 		injected = append(injected, ierr)
+		if ph.kind == "longlived-readerr" {
+			// the channel lives well beyond the reconnect delay before its fault: the delay still applies afterwards
+			time.Sleep(2*c14Reconnect + time.Duration(ph.n)*10*time.Millisecond)
+		}
+		if ph.kind == "blockedwrite-readerr" {
+			// the writer is parked inside the transport when the read side fails: the channel must still close
+			p.BlockWrites()
+			n.WriteMessageAll(&common.MessageDebug{TimeBootMs: uint32(pi)}) //nolint:errcheck
+			if !p.WaitParkedWriter(bound) {
+				return fmt.Errorf("BROKEN: writer did not reach the transport")
+			}
+		}
 		if ph.kind == "writefail-then-readerr" {
 			// the last write before the read fault fails: the close event must still carry the read error
 			p.FailNextWrite(errors.New("injected serial write error"))
@@ -604,7 +620,7 @@ func init() {
 
 func TestC14Clients(t *testing.T) {
 	rec := evid.New(t, "C14", "client-type endpoints under generated fault sequences: TCP client against a harness server that is down for a while (failed connection attempts), accepts and then ends the connection by EOF, reset or silence (idle timeout); serial endpoint (hooked opener) whose open fails several times and whose reads fail with an injected error; oracles: strictly alternating open/close events (never two channels at once), every close event carries an error matching the injected cause, a fresh channel opens after every close but not earlier than the reconnect delay, connections seen by the peer == open events; non-trivial = >=2 consecutive failures including a failed connect; distinct by hash of the phases")
-	rec.Require("tcp-client", "serial", "udp-client", "failed-connect-then-failure", "idle-expiry", "reset", "consumer-stalled-across-close", "write-failure-before-read-fault")
+	rec.Require("tcp-client", "serial", "udp-client", "failed-connect-then-failure", "idle-expiry", "reset", "consumer-stalled-across-close", "write-failure-before-read-fault", "fault-after-long-lived-channel", "read-fault-while-writer-blocked")
 	evid.Check(t, rec, evid.N(14, 80), func(t *rapid.T) {
 		// several independent sub-scenarios run concurrently to use the waiting time
 		k := rapid.IntRange(3, 6).Draw(t, "batch")
@@ -617,14 +633,14 @@ func TestC14Clients(t *testing.T) {
 		for i := 0; i < k; i++ {
 			s := &sub{kind: rapid.SampledFrom([]string{"tcp-client", "tcp-client", "serial", "udp-client"}).Draw(t, "kind")}
 			if s.kind == "tcp-client" {
-				s.phases = drawPhases(t, []string{"down", "eof", "eof", "reset", "idle"})
+				s.phases = drawPhases(t, []string{"down", "eof", "eof", "reset", "idle", "eof-longlived"})
 			} else if s.kind == "udp-client" {
 				s.phases = drawPhases(t, []string{"down", "answer-then-silent", "answer-then-silent"})
 				if len(s.phases) > 3 {
 					s.phases = s.phases[:3]
 				}
 			} else {
-				s.phases = drawPhases(t, []string{"down", "readerr", "readerr", "readerr-stalled", "writefail-then-readerr"})
+				s.phases = drawPhases(t, []string{"down", "readerr", "readerr", "readerr-stalled", "writefail-then-readerr", "longlived-readerr", "blockedwrite-readerr"})
 			}
 			subs = append(subs, s)
 		}
@@ -667,6 +683,12 @@ func TestC14Clients(t *testing.T) {
 				}
 				if p.kind == "writefail-then-readerr" {
 					cls = append(cls, "write-failure-before-read-fault")
+				}
+				if p.kind == "longlived-readerr" {
+					cls = append(cls, "fault-after-long-lived-channel")
+				}
+				if p.kind == "blockedwrite-readerr" {
+					cls = append(cls, "read-fault-while-writer-blocked")
 				}
 			}
 			if nt {
